@@ -68,6 +68,10 @@ def place(body, payload_text=None, payload_attr=None, payload_elem=None, pos='te
         # attribute on the leaf element that carries the slot, and on the method element
         b = re.sub(r'<(tns:\w+)>@@T0@@', lambda m: '<%s vfattr="%s">5' % (m.group(1), payload_attr), body, count=1)
         return b
+    if pos == 'attr-declared':
+        # a declared XmlAttribute of the argument (user code reads it)
+        b = body.replace('@@T0@@', '5')
+        return re.sub(r'<tns:it>', lambda m: '<tns:it tag="%s">' % payload_attr, b, count=1)
     if pos == 'attr-root':
         b = body.replace('@@T0@@', '5')
         return re.sub(r'<(tns:\w+)>', lambda m: '<%s vfattr="%s">' % (m.group(1), payload_attr), b, count=1)
@@ -81,11 +85,13 @@ def corpus(kind, spec, canary, dtd_path, port, rng):
     docs = []
     repl = 'REPLTEXT%d' % rng.randint(10 ** 6, 10 ** 7)
 
-    def add(template, prolog, ref_text, ref_attr=None, elem=None, bomb=False, positions=('text', 'attr', 'attr-root'),
+    def add(template, prolog, ref_text, ref_attr=None, elem=None, bomb=False, positions=('text', 'attr', 'attr-root', 'attr-declared'),
             expect_paths=(), marker_text=None):
         for meth, body in valid_requests(kind):
             for pos in positions:
-                if pos in ('attr', 'attr-root') and ref_attr is None:
+                if pos in ('attr', 'attr-root', 'attr-declared') and ref_attr is None:
+                    continue
+                if pos == 'attr-declared' and meth != 'echo_item':
                     continue
                 if pos == 'elem' and elem is None:
                     continue
@@ -317,7 +323,7 @@ def _flat(a):
     if isinstance(a, str):
         return a if len(a) < 100000 else a[:50000] + '...(%d chars)' % len(a)
     try:
-        return {k: _flat(getattr(a, k, None)) for k in ('a', 'b')}
+        return {k: _flat(getattr(a, k, None)) for k in ('a', 'b', 'tag')}
     except Exception:
         return repr(a)[:200]
 
